@@ -172,4 +172,6 @@ def subchecks(tier):
     return [Sub("selection", "hyp", check, strategy=strategy, examples=384 if q else 12000, shrink_budget=60,
                 sample_filter=gen_maps.short_case, required_classes=("candidates-differ", "more-peaks-than-count", "best-multi")),
             Sub("many-queries", "hyp", check_many, strategy=scale.many_queries_case, examples=2 if q else 48, shrink_budget=0, skip_first=True, shards=2 if q else 16,
-                sample_filter=scale.short, describe="257-385 query molecules in one 'best'-mode run")]
+                sample_filter=scale.short, describe="257-385 query molecules in one 'best'-mode run"),
+            Sub("many-references", "hyp", check, strategy=scale.many_references_case, examples=96 if q else 3000, shrink_budget=4,
+                sample_filter=scale.short, describe="65-140 reference maps, the query's pattern carried by 2-5 of them anywhere in the list")]
